@@ -61,17 +61,22 @@ def _build_binary(tj, cls):
 
 
 _DEC = re.compile(r"-?\d+\.\d+\Z")
+_EXP = re.compile(r"(-?)(\d+)(?:\.(\d+))?e([+-]\d+)\Z")
 
 
 def _float(v):
-    """a float whose repr is positional [-]ddd.ddd -> (digits without the dot, 10^k); else its exact ratio"""
+    """the exact decimal value of repr(v) as a fraction: positional [-]ddd.ddd -> (digits without the dot, 10^k);
+    exponent form -> the same value with numerator and denominator negated (marks "text not modelled")"""
     r = repr(v)
     if _DEC.match(r):
         k = len(r) - r.index(".") - 1
         return {"float": [int(r.replace(".", "")), 10 ** k]}
-    if math.isfinite(v):
-        a, b = v.as_integer_ratio()
-        return {"float": [a, b]}
+    m = _EXP.match(r)
+    if m:
+        sign, ip, fp, e = m.group(1), m.group(2), m.group(3) or "", int(m.group(4))
+        num, p = int(sign + ip + fp), e - len(fp)
+        num, den = (num * 10 ** p, 1) if p >= 0 else (num, 10 ** (-p))
+        return {"float": [-num, -den]}
     return {"float": [0, 0]}
 
 
@@ -120,11 +125,23 @@ def run_impl(prop, case):
     class Sub(Node):
         """a user subclass handed to the constructors as node_type"""
 
+    class ValueEq(Node):
+        """a user subclass with value semantics: nodes with the same name compare (and hash) equal"""
+
+        def __eq__(self, other):
+            return isinstance(other, Node) and other.node_name == self.node_name
+
+        def __hash__(self):
+            return hash(self.node_name)
+
     kind = case["kind"]
+    if case.get("subclass") == "ve":
+        Sub = ValueEq          # noqa: F811
+    in_cls = ValueEq if case.get("subclass") == "ve" else Node
     ntype = Sub if case.get("subclass") else None
     tkw = {"node_type": Sub} if ntype else {}
     if kind == "nw":
-        root = _build(case["tree"], Node)
+        root = _build(case["tree"], in_cls)
         if not case["isroot"]:
             holder = Node("holder")
             root.parent = holder
@@ -174,7 +191,7 @@ def run_impl(prop, case):
         if case.get("binary"):
             root = _build_binary(case["tree"], BinaryNode)
         else:
-            root = _build(case["tree"], Node)
+            root = _build(case["tree"], in_cls)
         if not case.get("isroot", True):
             holder = Node("holder")
             Node("elder", parent=holder)
@@ -302,7 +319,9 @@ NW_POOLS = {
     "repeated": ["a", "b", "a", "c", "b", "a", "c", "b", "a", "c", "a", "b"],
     "affix": ["a", "xa", "ab", "b", "bc", "abc", "c", "xab", "ba", "x", "bx", "cab"],
     "special": ["a:b", "(", ")", "[x]", "a,b", "k=v", "a b", " lead", "trail ", "a;", "node0", "0", "12",
-                "x\"y", "été", "a(b)c", ":", ",", "=", "[", "]", "a\tb", "1.5", "-3", "q,", "a:", "(x", "y)", " ", "007"],
+                "x\"y", "été", "a(b)c", ":", ",", "=", "[", "]", "a\tb", "1.5", "-3", "q,", "a:", "(x", "y)", " ", "007",
+                "argv[1]", "docs [draft]", "x[0]", "x[1]", "a [k=v]", "b[&&NHX:k=v]", "c:1[x]", "1e-05", "1e+16", "-2",
+                "( a , b )", "a;b;", "a  b", "[]", "()"],
 }
 # outside it: names containing the quote character
 NW_QUOTED = ["a'b", "'", "it's", "'a'", "x:'y"]
@@ -313,13 +332,15 @@ PR_POOLS = {
     "repeated": NW_POOLS["repeated"],
     "affix": NW_POOLS["affix"],
     "special": ["a b", "a.b", "(x)", "+", "trail ", "a'b", "x\"y", "|--", "`-- a", "a  b", "0", "12", "-", "a/b",
-                "[k=v]", "node0", "~", "|", "a:b", "+-- q"],
+                "[k=v]", "node0", "~", "|", "a:b", "+-- q",
+                "argv[1]", "docs [draft]", "x[0]", "x[1]", "a [age=90]", "b [x=1, y=2]", "c *(k=v)", "k [", "] z", "a[]",
+                "1", "1.5", "1e-05", "-2", "a (b)", "e [draft] v2"],
 }
 # outside it
 PR_OUT = [" lead", "été", "a│b", "\tq", "a\nb", "  x", "├── z", "a ", "x ├── y", "p└──", "╠══ w"]
 
-ATTR_KEYS = ["k", "sp", "B", "a:b", "x y", "k=1"]
-ATTR_VALS_IN = ["human", "v", "x:y", "a b", "(1)", "7", "p=q", "[z]", "u,v", "w\"w"]
+ATTR_KEYS = ["k", "sp", "B", "a:b", "x y", "k=1", "names", "n", "path", "x", "name_en", "seps"]
+ATTR_VALS_IN = ["human", "v", "x:y", "a b", "(1)", "7", "p=q", "[z]", "u,v", "w\"w", "v[1]", "1e-05", "[draft]", "0"]
 ATTR_VALS_OUT = [5, 0, True, False, "", "it's", -2]
 
 
@@ -419,9 +440,10 @@ def gen_newick(rng, nmax=11):
         for i in range(n):
             attrs[i][cfg["len"]] = rng.choice([1, 7, 40, 65, 100, 999, 12345])
             if floats and rng.random() < 0.6:
-                attrs[i][cfg["len"]] = rng.choice([0.5, 2.0, 1.25, 12.5, 0.05, 100.0, 3.75, 1e-05, -1.5])
+                attrs[i][cfg["len"]] = rng.choice([0.5, 2.0, 1.25, 12.5, 0.05, 100.0, 3.75, 1e-05, -1.5, 1e+16, 2.5e-07, -3e+20,
+                                                    1234567.5, 0.0001, 1e+22])
         if floats:
-            label += "/len-float-out"
+            label += "/len-float"
         if bad:
             i = rng.randrange(n)
             choice = rng.choice(["zero", "missing", "str", "neg", "true"])
@@ -459,7 +481,7 @@ def gen_newick(rng, nmax=11):
     if quoted:
         label += "/quote-out"
     case = {"kind": "nw", "tree": _to_tree(kids, names, attrs), "cfg": cfg, "isroot": isroot,
-            "defaults": rng.random() < 0.5, "subclass": rng.random() < 0.25}
+            "defaults": rng.random() < 0.5, "subclass": rng.choice([False, False, True, "ve"])}
     return f"newick/{shape}/{pool_name}/{label}", case
 
 
@@ -508,8 +530,7 @@ def gen_print(rng, nmax=11):
     if rng.random() < 0.15:
         case["isroot"] = False                        # printed from an inner node of a larger tree
         lab += "/inner"
-    if rng.random() < 0.25:
-        case["subclass"] = True
+    case["subclass"] = rng.choice([False, False, True, "ve"])
     v = rng.random()
     if v < 0.22:
         if style[0] == "custom":
@@ -604,7 +625,7 @@ def gen_nwparse(rng):
         if u < 0.7:
             s = _mutate(rng, s, NW_ALPHA)
             lab = "mutated"
-    return f"nwparse/{lab}", {"kind": "nwparse", "s": s, "la": la, "pf": pf, "subclass": rng.random() < 0.25}
+    return f"nwparse/{lab}", {"kind": "nwparse", "s": s, "la": la, "pf": pf, "subclass": rng.choice([False, False, True, "ve"])}
 
 
 def _ref_lines(tj, stem, branch, final, pfx=""):
@@ -653,7 +674,7 @@ def gen_stparse(rng):
     if u >= 0.7:
         s = _mutate(rng, s, ST_ALPHA)
         lab = "mutated"
-    case = {"kind": "stparse", "s": s, "subclass": rng.random() < 0.25}
+    case = {"kind": "stparse", "s": s, "subclass": rng.choice([False, False, True, "ve"])}
     if stem.strip() and rng.random() < 0.45:
         case["plist"] = rng.choice([[branch.rstrip(" "), final.rstrip(" ")], [branch, final], [final.rstrip(" ")],
                                     [final.rstrip(" "), branch.rstrip(" ")]])
@@ -697,6 +718,14 @@ def corpus(prop):
                                       "s": "a\n├── b\n│   ├── d\n│   └── e\n│       ├── g\n│       └── h\n└── c\n    └── f"}),
         ("print-prefix-nonascii", {"kind": "pr", "tree": _t("r", _t("été", _t("x y")), _t("b")), "style": ["name", 2],
                                    "plist": ["├──", "└──"]}),
+        ("print-annotation-like-names", {"kind": "pr", "style": ["name", 2],
+                                         "tree": _t("argv[1]", _t("docs [draft]", _t("x[0]"), _t("x[1]"), _t("a [age=90]", _t("b [x=1, y=2]"))),
+                                                    _t("1e-05"), _t("1.5"), _t("1"))}),
+        ("newick-annotation-like-names", {"kind": "nw", "cfg": dflt, "isroot": True, "defaults": True,
+                                          "tree": _t("argv[1]", _t("docs [draft]", _t("x[0]"), _t("x[1]"), _t("a [k=v]", _t("b[&&NHX:k=v]"))),
+                                                     _t("1e-05"), _t("c:1[x]"), _t("( a , b )"))}),
+        ("newick-float-forms", {"kind": "nw", "cfg": dict(dflt, len="L"), "isroot": True, "defaults": True, "subclass": "ve",
+                                "tree": _t("r", _t("a", _t("c", L=-2.5e-07), L=1e-05), _t("b", L=1e+16), _t("d", L=0.0001), _t("e", L=7))}),
         ("print-inner-maxdepth", {"kind": "pr", "tree": deep, "style": ["object", 4], "md": 3, "isroot": False, "subclass": True}),
     ]
     return out
@@ -846,10 +875,27 @@ def partial_clauses(prop):
     return [
         "Newick: non-default length_sep / attr_sep are outside the round-trip claim (newick_to_tree only knows ':'); "
         "with neither length nor attributes requested any separator is covered (C06_newick_roundtrip_anysep)",
-        "float lengths: the theorems and the round-trip predicate cover positive integer lengths; floats are compared "
-        "model-vs-implementation only, for positional decimals of <= 15 digits (exponent forms, inf, nan: not compared)",
+        "float lengths: the theorems cover positive integer lengths; for non-zero float lengths the round-trip predicate "
+        "is evaluated on every implementation output (exact decimal value of repr), the parser model covers decimal "
+        "literals with <= 15 significant digits incl. exponents, the writer's text is compared for positional reprs only; "
+        "inf / nan are not compared",
         "str_to_tree with tree_prefix_list: modelled and compared for literal prefixes (no regex metacharacter); no "
         "theorem; regex prefixes and names with non-ASCII whitespace are not compared",
+        "name classes kept OUT of the round-trip claim because the unchanged tree itself does not round-trip them "
+        "(still compared with the model): Newick names / keys / values containing the quote character ' (rewritten to a "
+        "double quote: Node(\"it's\") -> it\"s), nodeN names with intermediate_node_name=False (a(k(a),node0) -> TreeError), "
+        "falsy attribute values (0, '', False are not exported; length 0 raises), non-string attribute values (come back as "
+        "str), negative integer lengths (-5 comes back as -5.0); print_tree/str_to_tree without tree_prefix_list: ansi / ascii "
+        "styles (Invalid prefix), non-root names with a leading blank (' lead' -> ValueError or shifted level), names with "
+        "non-ASCII characters incl. names equal to style glyphs (characters dropped / ValueError), names containing a newline. "
+        "INSIDE the claim and generated: names containing or ending with bracket groups (argv[1], docs [draft], x[0]/x[1] as "
+        "siblings, a [age=90]), parentheses, commas, colons, semicolons, '=', internal and trailing blanks, blank-only names, "
+        "numeric-looking names (1, 1.5, 1e-05, 1e+16, -2, 007), ASCII strings that look like ansi prefixes (|--, `-- a), and "
+        "float lengths in every repr form (positional, exponent with and without a dot, negative)",
+        "user subclasses: value-equality subclasses (__eq__/__hash__ by name) are used as input class and as node_type; "
+        "subclasses whose instances can be falsy (__len__ = number of children) are kept out: on the unchanged tree "
+        "tree_to_newick returns '' for such leaves ((()b,(,)c)a for a(b(a),c(b,a))), print_tree omits them and both parsers "
+        "lose nodes (`if not tree` / `if tree and` / `if not _new_node`)",
         "accepted blind spots of this engine: print_tree's attribute options (attr_list, all_attrs, attr_omit_null, "
         "attr_bracket) and node_name_or_path are left to the render engine (C18) and to C14; tree_to_newick on "
         "BinaryNode trees with empty slots (writes empty labels, no round trip claimed) and on non-str names / "
